@@ -67,6 +67,8 @@ def group_runs(g, tier):
             W('ovl(mem,mem,mem,mem)', 'random', lts='small', walks=60 if q else 2000, length=3, split=True),
             # layers that are sibling directories of ONE filesystem instance
             W('ovlsh(2)', 'random', walks=25 if q else 1500, length=30, split=True), W('ovlsh(3)', 'edges', lts='deep', frac=0.04 if q else 1.0, split=True),
+            # ... and layers that are plain sub-paths of one VfsPath (OverlayFS::new(&[m.join("zl1"), m.join("zl2")]))
+            W('ovlsub(2)', 'random', walks=25 if q else 1500, length=30, split=True), W('ovlsub(3)', 'edges', frac=0.01 if q else 0.5, split=True),
         ]
         if not q:
             runs += [W('ovl(mem,mem,mem,mem)', 'random', walks=500, length=40, split=True),
@@ -137,7 +139,8 @@ def group_runs(g, tier):
                 W('ovl(mem,mem)', 'random', walks=25 * k, length=50, ops=T, split=True), W('ovl(mem,mem)', 'random', walks=15 * k, length=40, ops=T, split=True, lower_only=True, lts='deep'),
                 W('ovl(phys,phys)', 'random', walks=10 * k, length=40, ops=T, split=True), W('ovl(mem,phys)', 'random', walks=10 * k, length=40, ops=T, split=True, lower_only=True),
                 W('ovl(mem,mem,mem)', 'random', walks=10 * k, length=40, ops=T, split=True, lower_only=True),
-                W('ovlsh(2)', 'random', walks=15 * k, length=40, ops=T, split=True, lower_only=True)]
+                W('ovlsh(2)', 'random', walks=15 * k, length=40, ops=T, split=True, lower_only=True),
+                W('ovlsub(2)', 'random', walks=15 * k, length=40, ops=T, split=True, lower_only=True)]
     if g == 'emb':
         return [dict(kind='emb', tspec='Trace_Tree')]
     if g == 'faults':
@@ -395,7 +398,7 @@ PROPS = {
     'C12': dict(groups=['tree', 'alt', 'ovl', 'join', 'faults']),
     'C13': dict(groups=['tree', 'alt', 'ovl', 'join', 'handles', 'hostile', 'hostiledir', 'emb']),
     'C07': dict(groups=['alt', 'hostile']),
-    'C08': dict(groups=['ovl', 'faults']),
+    'C08': dict(groups=['ovl', 'times', 'faults']),
     'C09': dict(groups=['ovl']),
     'C06': dict(groups=['join']),
     'C15': dict(groups=['async', 'join']),
